@@ -252,3 +252,38 @@ Example C05_exists_keys_bytes_example :
   exists_any_keys_w (enc (VStr [97])) [[97]] = Ok false /\
   exists_all_keys_w (enc (VStr [97])) [] = Ok true.
 Proof. vm_compute. repeat split; reflexivity. Qed.
+
+(* The offset expressions of the byte walkers are generated from the source (gen/Constants.v, names JBI_ JBN_ OKS_ OEA_ AVS_ CMP_
+   CPR_ CMA_ CMO_ CVC_ CVA_ CVO_ CTS_ STS_ SOV_ SAV_ SBN_ SBI_ BSA_; the walker models above call them).  All readers and the
+   builder compute the same layout: a changed constant in one function breaks the lemma below that names it. *)
+From JB Require OffsetTies.
+Theorem C05_array_payload_start_agree : forall off n,
+  JBI_VOFF off n = off + ITER_ARR_VOFF n /\ off + AVS_VOFF n = JBI_VOFF off n /\ CTS_ARR_VOFF off n = JBI_VOFF off n /\
+  SAV_OFF off n = JBI_VOFF off n /\ SBI_OFF off n = JBI_VOFF off n /\
+  off + CMP_ARR_LSKIP + CMA_LVOFF n = JBI_VOFF off n /\ off + CMP_ARR_RSKIP + CMA_RVOFF n = JBI_VOFF off n /\
+  off + CPR_ARR_LSKIP + CMA_LVOFF n = JBI_VOFF off n /\ off + CPR_ARR_RSKIP + CMA_RVOFF n = JBI_VOFF off n /\
+  off + CVC_ARR_SKIP + CVA_VOFF n = JBI_VOFF off n /\ off + BLD_ARR_LEN0 n = JBI_VOFF off n.
+Proof. exact OffsetTies.arr_payload_start_agree. Qed.
+Print Assumptions C05_array_payload_start_agree.
+Theorem C05_object_keys_start_agree : forall off n,
+  JBN_KOFF off n = off + ITER_ENT_KOFF n /\ JBN_KOFF off n = off + ITER_KEYS_KOFF n /\ JBN_VOFF off n = off + ITER_ENT_VOFF n /\
+  JBN_VOFF off n = JBN_KOFF off n /\
+  off + OKS_KOFF n = JBN_KOFF off n /\ OKS_PREV_KOFF n = OKS_KOFF n /\
+  off + OEA_OFF0 + OEA_STEP * OEA_WORDS n = JBN_KOFF off n /\
+  CTS_OBJ_KOFF off n = JBN_KOFF off n /\
+  SOV_OFF off n = JBN_KOFF off n /\ SBN_OFF off n = JBN_KOFF off n /\
+  off + CMP_OBJ_LSKIP + CMO_LKOFF n = JBN_KOFF off n /\ off + CMP_OBJ_RSKIP + CMO_RKOFF n = JBN_KOFF off n /\
+  off + CPR_OBJ_LSKIP + CMO_LKOFF n = JBN_KOFF off n /\ off + CPR_OBJ_RSKIP + CMO_RKOFF n = JBN_KOFF off n /\
+  CMO_LVOFF n = CMO_LKOFF n /\ CMO_RVOFF n = CMO_RKOFF n /\
+  off + CVC_OBJ_SKIP + CVO_KOFF n = JBN_KOFF off n /\ CVO_VOFF n = CVO_KOFF n /\
+  off + BLD_OBJ_LEN0 n = JBN_KOFF off n.
+Proof. exact OffsetTies.obj_keys_start_agree. Qed.
+Print Assumptions C05_object_keys_start_agree.
+Theorem C05_entry_strides_agree :
+  JBI_JSTEP = BLD_JSTEP /\ JBN_JSTEP1 = BLD_JSTEP /\ JBN_JSTEP2 = BLD_JSTEP /\ OKS_JSTEP = BLD_JSTEP /\ OEA_STEP = BLD_JSTEP /\
+  AVS_JSTEP = BLD_JSTEP /\ CMA_JSTEP = BLD_JSTEP /\ CMO_LJSTEP1 = BLD_JSTEP /\ CMO_LJSTEP2 = BLD_JSTEP /\ CMO_RJSTEP1 = BLD_JSTEP /\
+  CMO_RJSTEP2 = BLD_JSTEP /\ CVA_JSTEP = BLD_JSTEP /\ CVO_JSTEP1 = BLD_JSTEP /\ CVO_JSTEP2 = BLD_JSTEP /\ CTS_OBJ_JSTEP = BLD_JSTEP /\
+  STS_JSTEP = BLD_JSTEP /\ BSA_JSTEP = BLD_JSTEP /\ ITER_ARR_JSTEP = BLD_JSTEP /\ ITER_KEYS_JSTEP = BLD_JSTEP /\ ITER_ENT_JSTEP = BLD_JSTEP /\
+  ITER_FILL_JSTEP = BLD_JSTEP.
+Proof. exact OffsetTies.strides_agree. Qed.
+Print Assumptions C05_entry_strides_agree.
